@@ -326,6 +326,8 @@ def run_history(ctx, rng, cfg, nops):
                     ({'op': 'isohybrid', 'kw': {'mac': True}}, 'isohybrid/mac-without-efi-sections'),
                     ({'op': 'isohybrid', 'kw': {'efi': True}}, 'isohybrid/efi-without-efi-section'),
                     ({'op': 'isohybrid', 'kw': {'geometry_sectors': 64}}, 'isohybrid/bad-geometry-sectors'),
+                    ({'op': 'isohybrid', 'kw': {'efi': True, 'part_entry': 2}}, 'isohybrid/efi-slot-conflict'),
+                    ({'op': 'isohybrid', 'kw': {'efi': True, 'mac': True, 'part_entry': 3}}, 'isohybrid/mac-slot-conflict'),
                     ({'op': 'rmfile', 'ns': 'i', 'path': boot}, 'rmfile/boot-file'),
                     ({'op': 'rmisohybrid'}, 'rmisohybrid/none')):
                 if rng.random() < 0.5:
